@@ -125,6 +125,14 @@ Definition get_int (t : str) (m : msg) : Z + exn :=
 Definition set_tag (t v : str) (m : msg) : msg + exn :=
   if has t (mtags m) then inr XDupTag else inl (mkMsg (mtype m) (mtags m ++ [(t, v)])).
 
+(* msg.set(tag, value, replace=True): an existing tag keeps its position and gets the new value, a new tag goes last *)
+Fixpoint put (t v : str) (l : list tagv) : list tagv :=
+  match l with
+  | [] => [(t, v)]
+  | (k, x) :: l' => if str_eqb k t then (k, v) :: l' else (k, x) :: put t v l'
+  end.
+Definition put_tag (t v : str) (m : msg) : msg := mkMsg (mtype m) (put t v (mtags m)).
+
 (* del msg[tag] *)
 Definition del_tag (t : str) (m : msg) : msg + exn :=
   if has t (mtags m) then inl (mkMsg (mtype m) (del t (mtags m))) else inr XKey.
@@ -512,9 +520,9 @@ Fixpoint replay_loop (c : cfg) (rows : list (Z * msg)) (gfb gfe : Z) : M (Z * Z)
         (* numbers missing in the journal before this message are gap filled too *)
         let gfe := if gfb <? n then n else gfe in
         (if gfb <? gfe then send_msg c (gap_fill gfb (z_to_dec gfe)) else ret tt) ;;;
-        m1 <- lift (set_tag T43 S_Y dm) ;;
+        let m1 := put_tag T43 S_Y dm in                 (* replace=True: a journaled 43 / 122 is overwritten *)
         v52 <- lift (get_tag T52 m1) ;;
-        m2 <- lift (set_tag T122 v52 m1) ;;
+        let m2 := put_tag T122 v52 m1 in
         m3 <- lift (del_tags [T35; T8; T9; T52; T49; T56; T10] m2) ;;
         send_msg c m3 ;;;
         replay_loop c rows' (n + 1) gfe
@@ -526,7 +534,7 @@ Definition process_resend (c : cfg) (m : msg) : M unit :=
   b0 <- lift (get_int T7 m) ;;
   e0 <- lift (get_int T16 m) ;;
   let b := if b0 <? 1 then 1 else b0 in      (* invalid request: answer from the first message *)
-  let e := if e0 =? 0 then c_maxsize c else e0 in
+  let e := if (e0 =? 0) || (c_maxsize c <? e0) then c_maxsize c else e0 in   (* beyond 64 bits = everything *)
   rows <- recover_out b e ;;
   w1 <- getw ;;
   let cur := nout w1 in
